@@ -40,6 +40,9 @@ theorem program_mk (kind : Kind) (p : Pkt) (o : Outcome) (ops : List Op) (hk : K
         simp only [Option.some.injEq] at hp; subst hp
         exact ⟨[q.id], [(outW 0, q)], rfl, rfl, by simp [outW, maxW],
           by simpa using fun e => hfresh q.id (by simp [introS, cellsOf]) e.symm⟩
+      | [], hp => simp only [Option.some.injEq] at hp; subst hp; simp [linkTargets] at hne
+      | [none], hp => simp only [Option.some.injEq] at hp; subst hp; simp [linkTargets] at hne
+      | _ :: _ :: _, hp => simp only [Option.some.injEq] at hp; subst hp; simp [linkTargets] at hne
     | oneToMany n =>
       simp only [program] at hp
       cases hv : validOuts n 0 qs with
